@@ -22,7 +22,8 @@ pub const ENTRY: Entry = Entry {
            the reference controller's *final state* (not a golden trace): awake, display on, MADCTL == specification encoding, COLMOD \
            interface format == the model's colour type, inversion as chosen, no RAMWR / pixel data, init returns >= 120 ms (virtual \
            time) after the last sleep-out, cached MADCTL (hook) == value sent; unsupported kinds are refused with UnsupportedInterface \
-           before any model command; the pinned support matrix is still accepted. Non-trivial = every configuration that is not the \
+           before any model command; the pinned support matrix is still accepted. Single-fault leg on the real transports (every model x transport x {pin, none}): each low-level operation of init fails once - \
+           an init that still returns Ok must satisfy the same oracle, and a failed init retried through the same lent interface must satisfy it too. Non-trivial = every configuration that is not the \
            all-default option set.",
     assumptions: &["reference controller model; vendor commands are opaque; RM67162 manufacturer pages are modelled (0xFE p)"],
     run: run11,
@@ -34,7 +35,9 @@ pub const ENTRY17: Entry = Entry {
     rule: "timeline monitor over every initialisation of the C11 enumeration (all built-in models x transports x option sets x \
            {reset pin, none}): with a reset pin the first event is RST low, then >= 10 us of delay, then RST high; RST stays high; no bus \
            event before the rising edge; no software reset anywhere. Without a pin the first bus event is command 0x01 with no \
-           parameters, exactly once. All model commands come after the reset. Longer pulses and extra delays are accepted. \
+           parameters, exactly once. All model commands come after the reset. Longer pulses and extra delays are accepted. Single-fault leg (each low-level operation of init on the real transports fails once): \
+           no bus event while the pin is low or before a complete pulse, no software reset next to a pin, without a pin the first command seen is 0x01 (at most once); \
+           a failed init retried through the same lent interface passes the full monitor. \
            Non-trivial = every execution (each contains a reset phase).",
     assumptions: &["unified virtual timeline of pin edges, delays and bus events"],
     run: run17,
@@ -238,6 +241,130 @@ pub fn check_c17(r: &InitRun) -> Option<(String, String)> {
     None
 }
 
+/// C17 on an initialisation during which one low-level operation failed: whatever the driver does about the
+/// failure, it must not talk to the panel before a complete reset pulse, nor send a software reset next to a pin
+pub fn check_c17_faulted(r: &InitRun) -> Option<(String, String)> {
+    let cfg = &r.cfg;
+    let ModelId::Builtin(mi) = cfg.model else { unreachable!() };
+    let info = &BUILTINS[mi as usize];
+    let mk = |k: &str, m: String| Some((format!("reset-with-fault/{}/{k}", if cfg.rst { "pin" } else { "soft" }), format!("{} on {:?}: {m}", info.name, cfg.tr)));
+    if matches!(r.out, Outcome::Panic(_) | Outcome::NonTermination(_)) {
+        return None;
+    }
+    let b = r.bd.borrow();
+    let soft_resets = r.ctl.cmds.iter().filter(|c| c.op == 0x01).count();
+    if cfg.rst {
+        let mut level = true;
+        let mut low_ns = 0u64;
+        let mut pulse_done = false;
+        for (i, e) in b.evs.iter().enumerate().skip(r.ev_start) {
+            match e {
+                Ev::Pin { pin: PIN_RST, high, applied, .. } => {
+                    if *applied {
+                        if !*high {
+                            level = false;
+                            low_ns = 0;
+                        } else {
+                            if !level && low_ns >= 10_000 {
+                                pulse_done = true;
+                            }
+                            level = true;
+                        }
+                    }
+                }
+                Ev::Delay { ns } => {
+                    if !level {
+                        low_ns += ns;
+                    }
+                }
+                e => {
+                    if !level {
+                        return mk("bus-during-reset", format!("event #{i} {e:?} while the reset pin is low"));
+                    }
+                    if !pulse_done {
+                        return mk("bus-before-reset", format!("event #{i} {e:?} although no complete reset pulse has happened"));
+                    }
+                }
+            }
+        }
+        if soft_resets != 0 {
+            return mk("soft-reset-with-pin", format!("{soft_resets} software reset command(s) although a reset pin is configured"));
+        }
+        if r.out.is_ok() && !b.levels[PIN_RST as usize] {
+            return mk("left-low", "init returned Ok with the reset pin low".into());
+        }
+    } else {
+        if let Some(c) = r.ctl.cmds.first() {
+            if c.op != 0x01 || !c.params.is_empty() {
+                return mk("first-command", format!("first bus command is {:02x} {:02x?}, expected 0x01 without parameters", c.op, c.params));
+            }
+        }
+        if soft_resets > 1 {
+            return mk("soft-reset-count", format!("software reset sent {soft_resets} times"));
+        }
+    }
+    None
+}
+
+/// single-fault leg shared by C11 and C17: every low-level operation of a fault-free init fails once
+fn init_fault_leg(ctx: &Ctx, acc: &mut Acc, cfg: &Cfg, which: u8) {
+    let base = init_run(cfg, &[]);
+    if !base.out.is_ok() {
+        return;
+    }
+    let n = base.bd.borrow().ops;
+    let name = match cfg.model {
+        ModelId::Builtin(i) => BUILTINS[i as usize].name,
+        _ => "?",
+    };
+    for k in 0..n {
+        let mut modes = vec![FaultMode::Unchanged];
+        let mut mi = 0;
+        while mi < modes.len() {
+            let mode = modes[mi];
+            mi += 1;
+            let r = init_run(cfg, &[Fault { at: k, mode }]);
+            acc.evaluations += 1;
+            acc.transitions += 1;
+            let fired = r.bd.borrow().failed_ops.clone();
+            if fired.len() != 1 {
+                continue; // C12 reports faults that do not fire
+            }
+            acc.nontrivial += 1;
+            acc.count("init_single_faults", 1);
+            if fired[0].1 < 16 && mode == FaultMode::Unchanged {
+                modes.push(FaultMode::Changed);
+            }
+            let mut bad: Option<(String, String)> = None;
+            let ctxt = format!("{name} on {:?} (rst {}), low-level operation {k} fails once ({mode:?})", cfg.tr, cfg.rst);
+            if which == 11 {
+                // an init that reports success must have initialised the panel, fault or not
+                if r.out.is_ok() {
+                    acc.count("init_ok_despite_fault", 1);
+                    if let Some((s, m)) = check_c11(&r) {
+                        bad = Some((format!("init-ok-despite-fault/{}", s.replace('/', "-")), format!("{ctxt}: {m}")));
+                    }
+                }
+            } else if let Some((s, m)) = check_c17_faulted(&r) {
+                bad = Some((s, format!("{ctxt}: {m}")));
+            }
+            // a failed init retried through the same lent interface is an initialisation like any other
+            if bad.is_none() && mode == FaultMode::Unchanged && !r.out.is_ok() {
+                let (_first, retry) = init_run_retry(cfg, &[Fault { at: k, mode }]);
+                acc.evaluations += 1;
+                acc.count("init_retries", 1);
+                let f = if which == 11 { check_c11(&retry) } else { check_c17(&retry) };
+                if let Some((s, m)) = f {
+                    bad = Some((format!("retry-after-failed-init/{}", s.replace('/', "-")), format!("{ctxt}; then init again through the same interface: {m}")));
+                }
+            }
+            if let Some((sig, msg)) = bad {
+                acc.violation(Violation { prop: ctx.prop.clone(), sig, msg, case: json!({"kind": "init-fault", "variant": ctx.variant, "cfg": cfg, "which": which, "k": k, "mode": mode}) });
+            }
+        }
+    }
+}
+
 fn run_both(ctx: &Ctx, which: u8) -> Part {
     let t0 = Instant::now();
     let quick = ctx.quick();
@@ -284,6 +411,29 @@ fn run_both(ctx: &Ctx, which: u8) -> Part {
             acc
         })
         .reduce(Acc::new, Acc::merge);
+    // single-fault leg on the real transports
+    let mut fcfgs = Vec::new();
+    for (i, info) in BUILTINS.iter().enumerate() {
+        for tr in super::c12::REAL {
+            if info.c666 && tr.bus16() {
+                continue;
+            }
+            for rst in [false, true] {
+                let opts: &[(u8, bool, bool, u8)] = if quick { &[(5, true, true, 1)] } else { &[(5, true, true, 1), (0, false, false, 0), (2, false, true, 3)] };
+                for &(orient, bgr, invert, refresh) in opts {
+                    fcfgs.push(Cfg { model: ModelId::Builtin(i as u8), tr, win: None, orient, bgr, invert, refresh, rst, flags: 0 });
+                }
+            }
+        }
+    }
+    let fa = fcfgs
+        .par_iter()
+        .fold(Acc::new, |mut acc, cfg| {
+            init_fault_leg(ctx, &mut acc, cfg, which);
+            acc
+        })
+        .reduce(Acc::new, Acc::merge);
+    acc = acc.merge(fa);
     acc.states = n as u64;
     acc.transitions = acc.evaluations;
     acc.traces = acc.evaluations;
@@ -294,6 +444,8 @@ fn run_both(ctx: &Ctx, which: u8) -> Part {
     let mut part = Part::new(ctx, acc, bounds, true, t0.elapsed().as_secs_f64());
     part.require("initialised", 1000);
     part.require("refused_unsupported", 1);
+    part.require("init_single_faults", 1000);
+    part.require("init_retries", 1000);
     part
 }
 fn run11(ctx: &Ctx) -> Part {
@@ -305,6 +457,35 @@ fn run17(ctx: &Ctx) -> Part {
 
 pub fn replay(case: &serde_json::Value) -> i32 {
     let cfg: Cfg = serde_json::from_value(case["cfg"].clone()).unwrap();
+    if case["kind"] == "init-fault" {
+        let k = case["k"].as_u64().unwrap();
+        let mode: FaultMode = serde_json::from_value(case["mode"].clone()).unwrap();
+        let which = case["which"].as_u64().unwrap() as u8;
+        let r = init_run(&cfg, &[Fault { at: k, mode }]);
+        println!("init with low-level operation {k} failing once ({mode:?}): outcome {:?}", r.out);
+        for c in &r.ctl.cmds {
+            println!("  t={:>10}ns cmd {:02x} params {:02x?}", c.t_ns, c.op, c.params);
+        }
+        let mut f = if which == 11 { if r.out.is_ok() { check_c11(&r) } else { None } } else { check_c17_faulted(&r) };
+        if f.is_none() && !r.out.is_ok() {
+            let (_first, retry) = init_run_retry(&cfg, &[Fault { at: k, mode }]);
+            println!("second init through the same interface: outcome {:?}", retry.out);
+            for c in &retry.ctl.cmds {
+                println!("  t={:>10}ns cmd {:02x} params {:02x?}", c.t_ns, c.op, c.params);
+            }
+            f = if which == 11 { check_c11(&retry) } else { check_c17(&retry) };
+        }
+        return match f {
+            Some((s, m)) => {
+                println!("REPLAY: {s} -- {m}");
+                1
+            }
+            None => {
+                println!("REPLAY: passes");
+                0
+            }
+        };
+    }
     let r = init_run(&cfg, &[]);
     println!("init outcome: {:?}", r.out);
     for c in &r.ctl.cmds {
